@@ -384,6 +384,11 @@ func verifEligible(trace string) (n int) {
 	return
 }
 
+var verifMultiOps = map[string]bool{"ExpireContractSectors": true, "ExpireV2ContractSectors": true, "ExpireTempSectors": true,
+	"PruneSectors": true, "MigrateSectors": true, "RemoveVolume": true, "StoreSector": true, "GrowVolume": true, "ShrinkVolume": true}
+
+func verifTier() string { return os.Getenv("VERIF_TIER") }
+
 func verifFaultTerm(k int, kind string) string {
 	return fmt.Sprintf("(Some (%d%%N, %s))", k, kind)
 }
@@ -394,13 +399,16 @@ func TestVerifC09Store(t *testing.T) {
 	log := verifNopLog()
 	dir := t.TempDir()
 	covered := map[string]bool{}
+	// VERIF_OPS=multi: only the operations that span several transactions (second pass
+	// with the repository's small SQL batch size)
+	onlyMulti := os.Getenv("VERIF_OPS") == "multi"
 	nTemplates := verifN(3)
 	caseID := 0
 	for tpl := 0; tpl < nTemplates; tpl++ {
 		trng := rand.New(rand.NewSource(verifSeed()*7919 + int64(tpl)))
 		nRoots := 3 + trng.Intn(3)
-		if tpl%3 == 2 {
-			nRoots = 6 + trng.Intn(4) // more than one SQL batch in the `testing` build
+		if sqlSectorBatchSize < 100 {
+			nRoots = 6 + trng.Intn(6) // more than one SQL batch per loop in the repository's `testing` build
 		}
 		tplPath := filepath.Join(dir, fmt.Sprintf("tpl%d.db", tpl))
 		var env *verifEnv
@@ -419,7 +427,7 @@ func TestVerifC09Store(t *testing.T) {
 		for oi, op := range ops {
 			id := caseID
 			caseID++
-			if em.Skip(id) {
+			if em.Skip(id) || (onlyMulti && !verifMultiOps[op.method]) {
 				continue
 			}
 			rng := verifCaseRand(id)
@@ -456,7 +464,11 @@ func TestVerifC09Store(t *testing.T) {
 			n := verifEligible(ref)
 			// which fault indices: all of them up to 48, beyond that the transaction boundaries and a sample
 			ks := make([]int, 0, n)
-			if n <= 48 {
+			kcap := 48
+			if strings.Count(ref, "C") > 2 && verifTier() != "thorough" {
+				kcap = 20 // every batch of a loop sleeps 50-75 ms
+			}
+			if n <= kcap {
 				for k := 0; k < n; k++ {
 					ks = append(ks, k)
 				}
@@ -476,8 +488,14 @@ func TestVerifC09Store(t *testing.T) {
 						e++
 					}
 				}
-				for len(seen) < 48 {
+				for len(seen) < kcap && len(seen) < n {
 					seen[rng.Intn(n)] = true
+				}
+				for len(seen) > kcap {
+					for k := range seen {
+						delete(seen, k)
+						break
+					}
 				}
 				for k := range seen {
 					ks = append(ks, k)
@@ -506,8 +524,8 @@ func TestVerifC09Store(t *testing.T) {
 					em.Monitor("fault-breaks-integrity:"+op.method, fmt.Sprintf("%s k=%d: %s", name, k, post.health))
 				}
 				if d != "" {
-					if committed == 0 {
-						em.Monitor("failed-call-changed-state:"+op.method, fmt.Sprintf("%s k=%d (%v): %s", name, k, err, d))
+					if committed == 0 || strings.Count(ref, "B") <= 1 {
+						em.Monitor("failed-call-changed-state:"+op.method, fmt.Sprintf("%s k=%d (%v, trace %s): %s", name, k, err, trace, d))
 					} else {
 						em.Count("partial-progress:" + op.method)
 					}
@@ -604,7 +622,7 @@ func TestVerifC09Store(t *testing.T) {
 		}
 	}
 	// coverage of the generated table
-	if !em.Skip(caseID) {
+	if !em.Skip(caseID) && !onlyMulti {
 		var names []string
 		for m := range covered {
 			names = append(names, "\""+m+"\"")
